@@ -128,13 +128,14 @@ def to_bool(v):
 
 
 class State:
-    __slots__ = ('env', 'heap', 'pc', 'path')
+    __slots__ = ('env', 'heap', 'pc', 'path', 'facts')
 
     def __init__(self):
         self.env = {}
         self.heap = {}
         self.pc = []
         self.path = []
+        self.facts = {}       # named hypotheses (requires clauses, callee postconditions, cut facts)
 
     def copy(self):
         t = State()
@@ -142,6 +143,7 @@ class State:
         t.heap = dict(self.heap)
         t.pc = list(self.pc)
         t.path = list(self.path)
+        t.facts = dict(self.facts)
         return t
 
 
@@ -262,7 +264,7 @@ class Engine:
     def num(self, v, kind):
         v = to_z3(v)
         if kind == 'real' and z3.is_int(v):
-            return z3.ToReal(v)
+            return z3.RealVal(v.as_long()) if z3.is_int_value(v) else z3.ToReal(v)
         if kind == 'int' and z3.is_real(v):
             raise Unsupported('real stored into int array')
         if kind == 'real' and z3.is_bool(v):
@@ -285,13 +287,13 @@ class Engine:
             occ[pos] = None
         return (kind, txt, pos)
 
-    def emit(self, sid, st, goal, note='', node=None, clause=None):
+    def emit(self, sid, st, goal, note='', node=None, clause=None, hyps=None):
         goal = _z(goal) if not isinstance(goal, bool) else z3.BoolVal(goal)
         if isinstance(sid, tuple):
             kind, txt, pos = sid
         else:
             kind, txt, pos = sid, '', (0, 0)
-        self.vcs.append(VC((self.cur, kind, txt, pos, clause), list(st.pc), goal, note,
+        self.vcs.append(VC((self.cur, kind, txt, pos, clause), list(st.pc) if hyps is None else list(hyps), goal, note,
                            hints=list(self.L.hints), line=pos[0], path=st.path))
 
     def finish_ids(self):
@@ -327,6 +329,14 @@ class Engine:
         loops = sorted([m for m in ast.walk(fn) if isinstance(m, (ast.For, ast.While))],
                        key=lambda m: (m.lineno, m.col_offset))
         self.loop_ids = {id(n): k + 1 for k, n in enumerate(loops)}
+        self.assign_ord = {}
+        cnt_ = {}
+        for a_ in sorted([m for m in ast.walk(fn) if isinstance(m, ast.Assign)], key=lambda m: (m.lineno, m.col_offset)):
+            for t_ in a_.targets:
+                for x_ in ast.walk(t_):
+                    if isinstance(x_, ast.Name) and isinstance(x_.ctx, ast.Store):
+                        cnt_[x_.id] = cnt_.get(x_.id, 0) + 1
+                        self.assign_ord[(id(a_), x_.id)] = cnt_[x_.id]
         self.assigned = {m.id for m in ast.walk(fn) if isinstance(m, ast.Name) and isinstance(m.ctx, ast.Store)}
         self.param_names = [a.arg for a in fn.args.args] + [a.arg for a in fn.args.kwonlyargs]
         self.L.hints = []
@@ -341,6 +351,11 @@ class Engine:
                 st.env[name] = v
             else:
                 raise Unsupported('contract gives no value for parameter %s of %s' % (name, qualname))
+        for o in list(st.heap.values()):
+            if isinstance(o, Arr):
+                for sdim in o.shape:
+                    if not z3.is_int_value(sdim):
+                        st.pc.append(sdim >= 0)       # array extents are non-negative
         self.entry_env = dict(st.env)
         self.entry_st = st.copy()
         A = {n: self.wrap(v, st) for n, v in st.env.items()}
@@ -350,7 +365,14 @@ class Engine:
             st.pc.append(g)
         for name, p in c.requires(self.L, A, self.ghost):
             st.pc.append(_z(p))
+            st.facts['pre:' + name] = _z(p)
+        for nm, base, step, concl in self.lemma_terms(c, A, self.ghost):
+            self.emit('lemma', st, base, clause=nm + '.base')
+            self.emit('lemma', st, step, clause=nm + '.step')
+        for nm, base, step, concl in self.lemma_terms(c, A, self.ghost):
+            st.pc.append(concl)
         self.pre_pc = list(st.pc)
+        self.pre_axioms = list(gax)
         n_before = len(self.vcs)
         try:
             for kind, st2, val in self.exec_block(fn.body, st):
@@ -358,6 +380,55 @@ class Engine:
         except Unsupported as u:
             self.unsupported.append((self.cur, str(u)))
         return self.vcs[n_before:]
+
+    def lemma_terms(self, c, A, ghost):
+        """induction lemmas declared by a contract: (name, base VC, step VC, conclusion)"""
+        L = self.L
+        out = []
+        for lem in (c.lemmas(L, A, ghost) if hasattr(c, 'lemmas') else []):
+            lo, hi, P = _z(lem['lo']), _z(lem['hi']), lem['P']
+            t = L.var('t')
+            if lem.get('down'):
+                base = z3.Implies(lo <= hi, _z(P(hi)))
+                step = z3.ForAll([t], z3.Implies(z3.And(lo <= t, t < hi, _z(P(t + 1))), _z(P(t))))
+            else:
+                base = z3.Implies(lo <= hi, _z(P(lo)))
+                step = z3.ForAll([t], z3.Implies(z3.And(lo <= t, t < hi, _z(P(t))), _z(P(t + 1))))
+            concl = z3.ForAll([t], z3.Implies(z3.And(lo <= t, t <= hi), _z(P(t))))
+            out.append((lem['name'], base, step, concl))
+        return out
+
+    def apply_cut(self, name, fn, st):
+        """mid-function induction lemmas (contract `cuts`): proved here from the current path facts, then assumed"""
+        L = self.L
+        V = View(self, st, old=self.A, ghost=self.ghost)
+        st = st.copy()
+        concls = []
+        for lem in fn(L, V):
+            hy = None
+            if lem.get('using') is not None:
+                missing = [u for u in lem['using'] if u not in st.facts]
+                if missing:
+                    raise Unsupported('cut lemma %s uses unknown facts %s (known: %s)' % (lem['name'], missing, sorted(st.facts)[:40]))
+                hy = list(self.pre_axioms) + [st.facts[u] for u in lem['using']]
+            if 'P' in lem:
+                lo, hi, P = _z(lem['lo']), _z(lem['hi']), lem['P']
+                t = L.var('t')
+                if lem.get('down'):
+                    base = z3.Implies(lo <= hi, _z(P(hi)))
+                    step = z3.ForAll([t], z3.Implies(z3.And(lo <= t, t < hi, _z(P(t + 1))), _z(P(t))))
+                else:
+                    base = z3.Implies(lo <= hi, _z(P(lo)))
+                    step = z3.ForAll([t], z3.Implies(z3.And(lo <= t, t < hi, _z(P(t))), _z(P(t + 1))))
+                self.emit('cut[%s]' % name, st, base, clause=lem['name'] + '.base', hyps=hy)
+                self.emit('cut[%s]' % name, st, step, clause=lem['name'] + '.step', hyps=hy)
+                concl = z3.ForAll([t], z3.Implies(z3.And(lo <= t, t <= hi), _z(P(t))))
+            else:       # plain intermediate assertion: proved, then assumed
+                concl = _z(lem['fact'])
+                self.emit('cut[%s]' % name, st, concl, clause=lem['name'], hyps=hy)
+            st.pc.append(concl)
+            st.facts['cut:' + lem['name']] = concl
+        return st
 
     def _defaults(self, fn):
         a = fn.args
@@ -387,7 +458,7 @@ class Engine:
             for n, v in self.entry_env.items():
                 if isinstance(v, Ref) and n not in mods and isinstance(self.entry_st.heap[v.oid], Arr):
                     a0, a1 = self.entry_st.heap[v.oid], st.heap[v.oid]
-                    if a0 is a1 or (z3.eq(a0.term, a1.term) and all(z3.eq(x, y) for x, y in zip(a0.shape, a1.shape))):
+                    if a0 is a1 or (not isinstance(a0.term, tuple) and z3.eq(a0.term, a1.term) and all(z3.eq(x, y) for x, y in zip(a0.shape, a1.shape))):
                         continue       # syntactically untouched: no VC needed
                     self.emit('frame', st, L.same_array(a0, a1), clause=n)
         elif kind == 'raise':
@@ -442,6 +513,17 @@ class Engine:
             for st2, v in self.eval(n.value, st):
                 for tgt in n.targets:
                     st2 = self.assign(tgt, v, st2)
+                cuts = getattr(self.c, 'cuts', {})
+                if cuts:
+                    for tgt in n.targets:
+                        for nm in [x.id for x in ast.walk(tgt) if isinstance(x, ast.Name) and isinstance(x.ctx, ast.Store)]:
+                            key = nm if self.assign_ord.get((id(n), nm), 1) == 1 else '%s#%d' % (nm, self.assign_ord[(id(n), nm)])
+                            if key in cuts:
+                                st2 = self.apply_cut(key, cuts[key], st2)
+                    rhs = ast.unparse(n.value)
+                    for key in cuts:
+                        if key.startswith('call:') and key[5:] + '(' in rhs.replace('\n', ''):
+                            st2 = self.apply_cut(key[5:], cuts[key], st2)
                 yield ('fall', st2, None)
         elif isinstance(n, ast.AugAssign):
             load = ast.copy_location(ast.BinOp(left=self.as_load(n.target), op=n.op, right=n.value), n)
@@ -550,7 +632,14 @@ class Engine:
                 a = st.heap[v.oid]
                 if a.meta.get('empty_literal'):
                     kind = lk[tgt.id]
-                    st.heap[v.oid] = Arr(z3.K(z3.IntSort(), self.fresh('dflt', kind)), (0,), kind, meta={'list': True})
+                    if kind.startswith('tuple:'):
+                        ks = kind[6:].split(',')
+                        st.heap[v.oid] = Arr(tuple(z3.K(z3.IntSort(), self.fresh('dflt', k)) for k in ks), (0,), 'tuple', meta={'list': True})
+                    elif kind.startswith('slices:'):
+                        base = self.deref(st, st.env[kind[7:]])
+                        st.heap[v.oid] = Arr((z3.K(z3.IntSort(), z3.IntVal(0)), z3.K(z3.IntSort(), z3.IntVal(0))), (0,), 'slices', meta={'list': True, 'base': base})
+                    else:
+                        st.heap[v.oid] = Arr(z3.K(z3.IntSort(), self.fresh('dflt', kind)), (0,), kind, meta={'list': True})
             st.env[tgt.id] = v
             return st
         if isinstance(tgt, (ast.Tuple, ast.List)):
@@ -588,7 +677,7 @@ class Engine:
     # store / subscript / binop / compare / call / method are in engine_np (mixed in)
 
     # ------------------------------------------------------------ loops
-    def modified(self, body):
+    def modified(self, body, st=None):
         """names rebound / objects mutated in a loop body (syntactic)"""
         rebound, mutated = [], []
 
@@ -616,7 +705,13 @@ class Engine:
                 if isinstance(n.func, ast.Attribute) and isinstance(n.func.value, ast.Name) and \
                         n.func.attr in ('append', 'fill', 'pop', 'extend', 'sort', 'insert', 'remove'):
                     add(mutated, n.func.value.id)
-                callee = self.resolve_callee(n.func, None)
+                callee = self.resolve_callee(n.func, st)
+                fname_ = ast.unparse(n.func)
+                if callee is None and not self.known_pure(fname_, n, st):
+                    # unknown callee: conservatively every object passed may be mutated
+                    for a in list(n.args) + [k.value for k in n.keywords]:
+                        if isinstance(a, ast.Name):
+                            add(mutated, a.id)
                 if callee is not None:
                     cc = self.registry[callee]
                     names = self.src.param_names(callee)
@@ -636,6 +731,23 @@ class Engine:
                         add(rebound, it.optional_vars.id)
         return rebound, mutated
 
+    def known_pure(self, fname, node, st):
+        head = fname.split('.')[0]
+        if head in ('logger', 'logging', 'warnings', 'np', 'numpy', 'scipy', 'mpi', 'log', 'exception', 'numbers') or self.prims.has(fname):
+            return True
+        if isinstance(node.func, ast.Attribute):
+            return True          # method calls: receivers handled above (append/fill/...); array methods are pure
+        if fname in ('len', 'range', 'enumerate', 'zip', 'list', 'tuple', 'int', 'float', 'min', 'max', 'abs', 'sum', 'isinstance',
+                     'hasattr', 'type', 'print', 'all', 'any', 'callable', 'str', 'prange', 'sorted', 'bool', 'iter', 'next'):
+            return True
+        if st is not None and isinstance(node.func, ast.Name):
+            v = st.env.get(node.func.id, UNDEF)
+            if isinstance(v, Metric):
+                return True      # metric callables are pure by their contract
+        if fname[:1].isupper():
+            return True          # constructors / exception classes
+        return False
+
     def havoc_value(self, name, old, h, in_place):
         """fresh unknown of the same kind as old"""
         lk = getattr(self.c, 'local_kinds', {})
@@ -645,6 +757,15 @@ class Engine:
             return Maybe(self.fresh('def_' + name, 'bool'), inner)
         if isinstance(old, Ref):
             a = h.heap[old.oid]
+            if isinstance(a, Arr) and isinstance(a.term, tuple):
+                shape = (self.fresh(name + '_len', 'int'),) if name in resizable else a.shape
+                if name in resizable:
+                    h.pc.append(shape[0] >= 0)
+                new = Arr(tuple(self.fresh(name + '_c%d' % k, t.sort()) for k, t in enumerate(a.term)), shape, a.kind, None, a.meta)
+                if in_place:
+                    h.heap[old.oid] = new
+                    return old
+                return self.new_obj(h, new)
             if isinstance(a, Arr):
                 if in_place:
                     shape = tuple(self.fresh(name + '_len', 'int') for _ in a.shape) if name in resizable else a.shape
@@ -686,6 +807,11 @@ class Engine:
         spec = lk[name]
         if callable(spec):
             return spec(self, h)
+        if spec.startswith('list:') or spec.startswith('array:'):
+            kind = spec.split(':')[1]
+            ln = self.fresh(name + '_len', 'int')
+            h.pc.append(ln >= 0)
+            return self.new_obj(h, Arr(self.fresh(name, self.arr_sort(kind)), (ln,), kind, meta={'list': spec.startswith('list:')}))
         if spec in ('int', 'real', 'bool') or spec.islower() and ':' not in spec:
             return self.fresh(name, spec)
         raise Unsupported('local kind spec %r' % (spec,))
@@ -712,6 +838,13 @@ class Engine:
                     s_.env[a_] = s_.env[c_]
             out += list(inv(L, View(self, s_, old=self.A, ghost=self.ghost)))
             return out
+        gspec = getattr(self.c, 'ghost_loops', {}).get(k)
+        def set_ghost(s_, vals):
+            for gname, gv in vals.items():
+                s_.env[gname] = self.new_obj(s_, gv) if isinstance(gv, Arr) else gv
+        if gspec:
+            set_ghost(st, gspec['init'](L, View(self, st, old=self.A, ghost=self.ghost)))
+            rebound = list(rebound) + [g_ for g_ in st.env if g_.startswith('ghost_') and g_ not in rebound]
         for name, g in all_inv(st):
             self.emit('loop%d.init' % k, st, g, clause=name)
         h = st.copy()
@@ -740,6 +873,9 @@ class Engine:
                 self.reached.add((self.cur, 'loop%d.body' % k))
                 for kind, h3, v in body_fn(h2):
                     if kind in ('fall', 'continue'):
+                        if gspec:
+                            h3 = h3.copy()
+                            set_ghost(h3, gspec['step'](L, View(self, h2, old=self.A, ghost=self.ghost), View(self, h3, old=self.A, ghost=self.ghost)))
                         for name, gg in all_inv(h3):
                             self.emit('loop%d.preserve' % k, h3, gg, clause=name)
                     elif kind == 'break':
@@ -749,7 +885,7 @@ class Engine:
 
     def exec_for(self, n, st):
         it = n.iter
-        rebound, mutated = self.modified(n.body)
+        rebound, mutated = self.modified(n.body, st)
         if n.orelse:
             raise Unsupported('for-else')
         fname = ast.unparse(it.func) if isinstance(it, ast.Call) else None
@@ -875,7 +1011,7 @@ class Engine:
         return self.new_obj(st, Arr(z3.Lambda(j, z3.Select(a.term, i, *j)), a.shape[1:], a.kind))
 
     def exec_while(self, n, st):
-        rebound, mutated = self.modified(n.body)
+        rebound, mutated = self.modified(n.body, st)
         if n.orelse:
             raise Unsupported('while-else')
         def guard(h):
